@@ -12,7 +12,7 @@ from fractions import Fraction
 
 import numpy as np
 
-from ..common import sx, parse_sx, atom_to_num
+from ..common import sx, parse_sx, atom_to_num, Q
 from .. import futil
 from ..futil import funsor, Tensor, Bint, ops, Variable, SEMIRINGS, gen_data, table, exact, same_num
 
@@ -300,60 +300,584 @@ def check_case(ctx, c, use_driver=True):
                              tuple(c["inputs"]), c["data"].tobytes()) if nontrivial else None)
 
 
-def sarkka_cases(ctx, n):
-    """sarkka_bilmes_product vs its naive counterpart (both implementation functions)."""
-    rng = ctx.rng
-    done = 0
-    for _ in range(n):
-        lags = rng.choice([[1], [2], [1, 2], [3], [1, 3], [2, 3], [1, 2, 3]])
-        T = rng.randint(1, 8)
-        num_periods = rng.choice([1, 1, 2, 3])
-        srname = rng.choice(["add-mul", "logaddexp-add", "max-add"])
-        sum_op, prod_op, _, kind = SEMIRINGS[srname]
-        size = rng.choice([1, 2, 2, 3])
-        inputs = [("time", T), ("x", size)]
-        for lag in lags:
-            inputs.append(("_PREV_" * lag + "x", size))
-        glob = rng.random() < 0.4
-        if glob:
-            inputs.append(("g", 2))
-        rng.shuffle(inputs)
-        data = gen_data(rng, tuple(s for _, s in inputs), kind)
-        trans = Tensor(data, OrderedDict((n_, Bint[s]) for n_, s in inputs))
-        tv = Variable("time", Bint[T])
-        gv = frozenset(["g"]) if glob else frozenset()
-        wit = dict(lags=lags, T=T, num_periods=num_periods, sr=srname, inputs=inputs, data=data.tolist())
-        try:
-            expected = naive_sarkka_bilmes_product(sum_op, prod_op, trans, tv, gv)
-        except Exception as e:
-            ctx.count("sarkka:naive-declined")
+# --------------------------------------------------------------------------------------
+# sarkka_bilmes_product: window-chain oracle (Lean) + naive counterpart + name arithmetic
+# --------------------------------------------------------------------------------------
+
+SR_ZERO = {"add-mul": 0, "max-add": float("-inf"), "min-add": float("inf"), "max-mul": 0}
+LAGSETS = [[1], [2], [1, 2], [3], [1, 3], [2, 3], [1, 2, 3]]
+
+
+def lin_exact(arr, kind):
+    """impl-space data -> exact values in the model's carrier (log data are logs of dyadics)."""
+    if kind == "log":
+        return np.round(np.exp(arr) * 4) / 4
+    return arr
+
+
+def gen_sarkka(rng, tier):
+    while True:
+        nvars = rng.choice([1, 1, 1, 2])
+        vars_ = ["x", "y"][:nvars]
+        lagsets = {}
+        for v in vars_:
+            r = rng.random()
+            lagsets[v] = [] if r < 0.12 else list(rng.choice(LAGSETS))
+        sizes = {v: rng.choice([1, 2, 2, 3]) for v in vars_}
+        S = int(np.prod([sizes[v] for v in vars_]))
+        k = max([0] + [l for v in vars_ for l in lagsets[v]])
+        if S <= 4 and S ** k <= 32:
+            break
+    maxT = 9 if tier == "quick" else 14
+    T = rng.randint(1, maxT)
+    num_periods = rng.choice([1, 1, 2, 3])
+    srname = rng.choice(list(SEMIRINGS))
+    glob = rng.random() < 0.35
+    inputs = [("time", T)]
+    for v in vars_:
+        inputs.append((v, sizes[v]))
+        for lag in lagsets[v]:
+            inputs.append(("_PREV_" * lag + v, sizes[v]))
+    if glob:
+        inputs.append(("g", 2))
+    rng.shuffle(inputs)
+    kind = SEMIRINGS[srname][3]
+    data = gen_data(rng, tuple(s for _, s in inputs), kind)
+    return dict(vars=vars_, lagsets=lagsets, sizes=sizes, S=S, k=k, T=T, num_periods=num_periods, sr=srname,
+                glob=glob, inputs=inputs, data=data)
+
+
+def _decode(c, s):
+    """joint state index -> {var: value} (first var most significant)."""
+    out = {}
+    for v in reversed(c["vars"]):
+        out[v] = s % c["sizes"][v]
+        s //= c["sizes"][v]
+    return out
+
+
+def sarkka_tables(c, g):
+    """tab[t][cur][window index] (exact, model carrier) at global point g; window = (x_{t-1},…,x_{t-k}) joint
+    states, first most significant."""
+    names = [n for n, _ in c["inputs"]]
+    kind = SEMIRINGS[c["sr"]][3]
+    data = lin_exact(c["data"], kind)
+    S, k = c["S"], c["k"]
+    tabs = []
+    for t in range(c["T"]):
+        tab = []
+        for cur in range(S):
+            row = []
+            curd = _decode(c, cur)
+            for w in itertools.product(range(S), repeat=k):
+                wd = [_decode(c, s) for s in w]
+                idx = []
+                for n in names:
+                    if n == "time":
+                        idx.append(t)
+                    elif n == "g":
+                        idx.append(g)
+                    else:
+                        lag = n.count("_PREV_")
+                        v = n[6 * lag:]
+                        idx.append(curd[v] if lag == 0 else wd[lag - 1][v])
+                row.append(exact(data[tuple(idx)]))
+            tab.append(row)
+        tabs.append(tab)
+    return tabs
+
+
+def py_window_mats(c, tabs):
+    """Python twin of FV.C10.SB.windowMat (used by the search and as a cross-check of the Lean one)."""
+    S, k = c["S"], c["k"]
+    zero = SR_ZERO[SEMIRINGS[c["sr"]][2]]
+    zero = exact(np.float64(zero))
+    wins = list(itertools.product(range(S), repeat=k))
+    mats = []
+    for tab in tabs:
+        m = []
+        for w in wins:
+            row = []
+            for w2 in wins:
+                if k == 0:
+                    row.append(tab[0][0])
+                elif tuple(w2[1:]) == tuple(w[:k - 1]):
+                    row.append(tab[w2[0]][wins.index(w)])
+                else:
+                    row.append(zero)
+            m.append(row)
+        mats.append(m)
+    return mats
+
+
+def py_project(c, m):
+    S, k = c["S"], c["k"]
+    wire = SEMIRINGS[c["sr"]][2]
+    add = (lambda a, b: a + b) if wire == "add-mul" else (max if wire.startswith("max") else min)
+    blk = S ** max(k - 1, 0)
+    out = []
+    for row in m:
+        r = []
+        for cur in range(S):
+            seg = row[cur * blk:(cur + 1) * blk]
+            acc = seg[0]
+            for x in seg[1:]:
+                acc = add(acc, x)
+            r.append(acc)
+        out.append(r)
+    return out
+
+
+def sarkka_expected_names(c, shifts_by_var):
+    names = set()
+    for v in c["vars"]:
+        names.add(v)
+        for j in shifts_by_var[v]:
+            names.add("_PREV_" * j + v)
+    return names
+
+
+def sarkka_impl_table(c, r):
+    """impl result -> array [g][w_init][cur] in the model's carrier, or None (lazy)."""
+    S, k = c["S"], c["k"]
+    order = ([("g", 2)] if c["glob"] else []) + [(v, c["sizes"][v]) for v in c["vars"]]
+    for j in range(1, k + 1):
+        for v in c["vars"]:
+            order.append(("_PREV_" * j + v, c["sizes"][v]))
+    tab = table(r, order)
+    if tab is None:
+        return None
+    kind = SEMIRINGS[c["sr"]][3]
+    tab = futil.linear_view(tab, kind)
+    G = 2 if c["glob"] else 1
+    tab = tab.reshape((G, S) + (S,) * k)          # g, cur, x_{-1}, …, x_{-k}
+    out = []
+    for g in range(G):
+        rows = []
+        for w in itertools.product(range(S), repeat=k):
+            rows.append([exact(tab[(g, cur) + tuple(w)]) for cur in range(S)])
+        out.append(rows)
+    return out
+
+
+SARKKA_PY = """
+# replay for C10: sarkka_bilmes_product vs explicit fold (lags {lagsets}, duration {T}, num_periods {np_})
+import numpy as np
+from collections import OrderedDict
+import funsor.ops as ops
+from funsor.domains import Bint
+from funsor.tensor import Tensor
+from funsor.terms import Variable
+from funsor.sum_product import sarkka_bilmes_product, naive_sarkka_bilmes_product
+data = np.array({data}, dtype=np.float64)
+trans = Tensor(data, OrderedDict({inputs_dom}))
+sum_op, prod_op = ops.{sum_op}, ops.{prod_op}
+gv = frozenset({gv})
+a = sarkka_bilmes_product(sum_op, prod_op, trans, Variable("time", Bint[{T}]), gv, num_periods={np_})
+e = naive_sarkka_bilmes_product(sum_op, prod_op, trans, Variable("time", Bint[{T}]), gv)
+print(a); print(e)
+FAILS = not (set(a.inputs) == set(e.inputs) and np.allclose(a.align(tuple(e.inputs)).data, e.data, equal_nan=True))
+# (if both functions are wrong in the same way, compare with the explicit sum over x_0..x_(T-2) of the product
+#  of the per-step factors; expected table [global][initial window][x_(T-1)]: see `expected` in the witness)
+"""
+
+
+def run_sarkka(c, which):
+    sum_op, prod_op, _, _ = SEMIRINGS[c["sr"]]
+    trans = Tensor(c["data"], OrderedDict((n_, Bint[s]) for n_, s in c["inputs"]))
+    tv = Variable("time", Bint[c["T"]])
+    gv = frozenset(["g"]) if c["glob"] else frozenset()
+    try:
+        if which == "sarkka":
+            return ("value", sarkka_bilmes_product(sum_op, prod_op, trans, tv, gv, num_periods=c["num_periods"]))
+        return ("value", naive_sarkka_bilmes_product(sum_op, prod_op, trans, tv, gv))
+    except (AssertionError, NotImplementedError, ValueError, KeyError, AttributeError, IndexError, TypeError) as e:
+        return ("declined", type(e).__name__)
+
+
+def check_sarkka(ctx, c, use_driver=True):
+    wire = SEMIRINGS[c["sr"]][2]
+    kind = SEMIRINGS[c["sr"]][3]
+    tol = 1e-9 if kind == "log" else 0.0
+    S, k, T = c["S"], c["k"], c["T"]
+    all_lags = sorted({l for v in c["vars"] for l in c["lagsets"][v]})
+    wit = dict(lagsets=c["lagsets"], sizes=c["sizes"], T=T, num_periods=c["num_periods"], sr=c["sr"],
+               inputs=c["inputs"], data=c["data"].tolist())
+    ctx.count(f"sarkka:lags={all_lags}")
+    ctx.count(f"sarkka:sr={c['sr']}")
+    ctx.count(f"sarkka:T%p={'na' if not all_lags else T % int(np.lcm.reduce(all_lags))}")
+    G = 2 if c["glob"] else 1
+    tabs = [sarkka_tables(c, g) for g in range(G)]
+    period = int(np.lcm.reduce(all_lags)) if all_lags else 1
+    # --- model / oracle -------------------------------------------------------------------------
+    expected = []          # [g] -> matrix [w_init][cur]
+    shifts_by_var = {}
+    if k == 0:
+        # no lags at all: both functions return the pointwise product over time (sequential_sum_product with an
+        # empty step); the state variables are batch inputs.  Model: scan / fold of 1x1 matrices per state.
+        for g in range(G):
+            row = []
+            for cur in range(S):
+                mats = [[[tabs[g][t][cur][0]]] for t in range(T)]
+                if use_driver:
+                    a = ctx.driver.ask([f"C10 scan {wire} {sx(mats)}", f"C10 fold {wire} {sx(mats)}"])
+                    mk, mv = parse_mat(a[0])
+                    fk, fo = parse_mat(a[1])
+                    if mk != "value" or fk != "value" or not mats_equal(mv, fo, 0):
+                        ctx.infra_errors.append(f"driver answered {a} on a no-lag sarkka case")
+                        return
+                else:
+                    fo = py_fold(c["sr"], mats)
+                row.append(fo[0][0])
+            expected.append([row])
+        for v in c["vars"]:
+            shifts_by_var[v] = []
+    elif use_driver:
+        reqs = [f"C10 sbwin {wire} {S} {k} {period} {c['num_periods']} {sx(tabs[g])}" for g in range(G)]
+        shifts_all = [0] + all_lags
+        reqs.append(f"C10 sbplan {T} {sx(shifts_all)}")
+        for v in c["vars"]:
+            reqs.append(f"C10 sbplan {T} {sx([0] + c['lagsets'][v])}")
+        ans = ctx.driver.ask(reqs)
+        for g in range(G):
+            if not ans[g].startswith("ok ("):
+                ctx.infra_errors.append(f"driver answered {ans[g][:200]} for sbwin")
+                return
+            sk, nv, fo = parse_sx(ans[g][3:])
+            if fo == "declined" or nv == "declined":
+                ctx.infra_errors.append("Lean fold/naive declined on a sarkka case")
+                return
+            fo = [[atom_to_num(x) for x in row] for row in fo]
+            nv = [[atom_to_num(x) for x in row] for row in nv]
+            if sk == "declined":
+                ctx.infra_errors.append(f"Lean sarkka model declined (theorem sarkka_eq_fold says it cannot): {reqs[g][:200]}")
+                return
+            sk = [[atom_to_num(x) for x in row] for row in sk]
+            if not (mats_equal(sk, fo, 0) and mats_equal(nv, fo, 0)):
+                ctx.infra_errors.append(f"Lean sarkka/naive model disagrees with the fold on {reqs[g][:300]}")
+                return
+            # cross-check of the Lean window construction by its Python twin
+            pm = py_project(c, py_fold(c["sr"], py_window_mats(c, tabs[g])))
+            if not mats_equal(pm, fo, 0):
+                ctx.infra_errors.append(f"Lean windowMat/projectFinal disagrees with the Python twin on {reqs[g][:300]}")
+                return
+            expected.append(fo)
+        plan = ans[G]
+        if all_lags:
+            pl = parse_sx(plan[3:])
+            if int(pl[0][0]) != period:
+                ctx.infra_errors.append(f"Lean period {pl[0]} != lcm {period}")
+                return
+        for i, v in enumerate(c["vars"]):
+            a = ans[G + 1 + i]
+            shifts_by_var[v] = [] if a == "ok nolags" else [int(x) for x in parse_sx(a[3:])[6]]
+    else:
+        for g in range(G):
+            expected.append(py_project(c, py_fold(c["sr"], py_window_mats(c, tabs[g]))))
+        for v in c["vars"]:
+            shifts_by_var[v] = sorted({l - t for t in range(T) for l in c["lagsets"][v] if l > t})
+    exp_names = sarkka_expected_names(c, shifts_by_var) | ({"g"} if c["glob"] else set())
+    # --- implementation -------------------------------------------------------------------------
+    nontrivial = False
+    for which in ("sarkka", "naive"):
+        status, r = run_sarkka(c, which)
+        if status == "declined":
+            ctx.count(f"sarkka:{which}-declined:{r}")
+            if which == "sarkka" and use_driver:
+                ctx.fail("correspondence", "C10.sarkka-decline-mismatch", witness=wit,
+                         expected="a value (model completes)", got=f"declined: {r}")
             continue
         try:
-            actual = sarkka_bilmes_product(sum_op, prod_op, trans, tv, gv, num_periods=num_periods)
-        except (AssertionError, NotImplementedError, ValueError) as e:
-            ctx.count("sarkka:declined")
-            continue
-        order = sorted((k, v.size) for k, v in expected.inputs.items())
-        try:
-            te = table(expected, order)
-            ta = table(actual, order)
+            impl = sarkka_impl_table(c, r)
         except (KeyError, ValueError) as e:
-            ctx.fail("input", "C10.sarkka-inputs", witness=wit, got=str(e), expected=str(order))
+            ctx.fail("input", f"C10.{which}-sarkka-inputs", witness=wit, got=str(e), expected=str(sorted(exp_names)))
             continue
-        if te is None or ta is None:
-            ctx.count("sarkka:lazy")
+        if impl is None:
+            ctx.count(f"sarkka:{which}-lazy")
             continue
-        tol = 1e-9
-        ok = np.allclose(np.where(np.isinf(te), 0, te), np.where(np.isinf(ta), 0, ta), rtol=tol, atol=tol) \
-            and (np.isinf(te) == np.isinf(ta)).all() and (np.sign(np.where(np.isinf(te), te, 0)) == np.sign(np.where(np.isinf(ta), ta, 0))).all()
-        ctx.count(f"sarkka:lags={lags}")
-        if not ok:
-            ctx.fail("input", "C10.sarkka-ne-naive", witness=wit, expected=str(te.tolist()), got=str(ta.tolist()))
+        bad = None
+        for g in range(G):
+            if not mats_equal(impl[g], expected[g], tol):
+                bad = g
+                break
+        if bad is not None:
+            sum_op, prod_op, _, _ = SEMIRINGS[c["sr"]]
+            ctx.fail("input", f"C10.{which}-sarkka-ne-fold", witness=wit,
+                     expected=str(expected[bad]), got=str(impl[bad]),
+                     python=SARKKA_PY.format(lagsets=c["lagsets"], T=T, np_=c["num_periods"],
+                                             data=c["data"].tolist(),
+                                             inputs_dom=[(n, f"Bint[{s}]") for n, s in c["inputs"]]
+                                             .__repr__().replace("'Bint[", "Bint[").replace("]')", "])"),
+                                             sum_op=sum_op.__name__, prod_op=prod_op.__name__,
+                                             gv=["g"] if c["glob"] else []))
             continue
-        done += 1
-        ctx.case(nontrivial_key=("sarkka", tuple(lags), T, num_periods, srname, tuple(inputs), data.tobytes())
-                 if T >= 2 and size >= 2 else None)
-    return done
+        got_names = set(r.inputs) if hasattr(r, "inputs") else set()
+        if got_names != exp_names:
+            # a missing name (result constant in it) cannot be a wrong value; the sizes in the generator are
+            # such that funsor keeps every input, so this is a genuine structural difference
+            ctx.count(f"sarkka:{which}-names-differ")
+            if use_driver and not got_names <= exp_names:
+                ctx.fail("correspondence", f"C10.{which}-sarkka-names", witness=wit,
+                         expected=str(sorted(exp_names)), got=str(sorted(got_names)))
+                continue
+        if which == "sarkka":
+            nontrivial = T >= 2 and S >= 2
+    ctx.case(sample=dict(lagsets=c["lagsets"], T=T, num_periods=c["num_periods"], sr=c["sr"], sizes=c["sizes"]),
+             nontrivial_key=("sarkka", tuple(sorted(c["lagsets"].items()).__repr__()), T, c["num_periods"],
+                             c["sr"], tuple(c["inputs"]), c["data"].tobytes()) if nontrivial else None)
+
+
+def sarkka_exhaustive(ctx):
+    """every lag set over {1,2,3} x every duration 1..(2·period+1 capped) x num_periods 1..2, one 2-state var."""
+    rng = ctx.rng
+    for lags in LAGSETS:
+        p = int(np.lcm.reduce(lags))
+        maxT = min(2 * p + 1, 9 if ctx.tier == "quick" else 13)
+        for T in range(1, maxT + 1):
+            for npz in (1, 2):
+                srname = rng.choice(list(SEMIRINGS))
+                kind = SEMIRINGS[srname][3]
+                inputs = [("time", T), ("x", 2)] + [("_PREV_" * l + "x", 2) for l in lags]
+                data = gen_data(rng, tuple(s for _, s in inputs), kind)
+                c = dict(vars=["x"], lagsets={"x": list(lags)}, sizes={"x": 2}, S=2, k=max(lags), T=T,
+                         num_periods=npz, sr=srname, glob=False, inputs=inputs, data=data)
+                check_sarkka(ctx, c)
+
+
+def name_arith_cases(ctx):
+    """_get_shift / _shift_name of the implementation against the Lean string functions."""
+    from funsor.sum_product import _get_shift, _shift_name
+    bases = ["x", "y_0", "_PREV", "PREV_x", "x_PREV_", "a_PREV_b", "_PREVx", "", "_", "_P", "x__PREV__PREV_y"]
+    reqs, exp = [], []
+    for b in bases:
+        for s in range(0, 4):
+            name = "_PREV_" * s + b
+            reqs.append(f'C10 getshift "{name}"')
+            exp.append(("getshift", name, None, str(_get_shift(name))))
+            for t in range(-4, 5):
+                reqs.append(f'C10 shiftname "{name}" {t}')
+                exp.append(("shiftname", name, t, '"' + _shift_name(name, t) + '"'))
+    ans = ctx.driver.ask(reqs)
+    for (what, name, t, e), a in zip(exp, ans):
+        ctx.count(f"names:{what}")
+        if a != "ok " + e:
+            ctx.fail("correspondence", f"C10.{what}", witness=dict(name=name, t=t), expected=a, got=e)
+            return
+    ctx.case(sample=dict(names=len(reqs)), nontrivial_key=("names", len(reqs)))
+
+
+# --------------------------------------------------------------------------------------
+# eager_markov_product: empty-step branches, and MarkovProduct(...)(**renaming)
+# --------------------------------------------------------------------------------------
+
+def gen_empty_step(rng, tier):
+    T = rng.randint(1, 9)
+    nbatch = rng.choice([0, 1, 1, 2])
+    bsizes = [rng.choice([1, 2, 3]) for _ in range(nbatch)]
+    srname = rng.choice(list(SEMIRINGS))
+    time_dep = rng.random() < 0.6
+    mode = rng.choice(["eager", "lazy", "reflect"])
+    inputs = ([("time", T)] if time_dep else []) + [(f"b{i}", s) for i, s in enumerate(bsizes)]
+    rng.shuffle(inputs)
+    kind = SEMIRINGS[srname][3]
+    data = gen_data(rng, tuple(s for _, s in inputs), kind)
+    rename = {}
+    if nbatch and rng.random() < 0.4:
+        rename = {"b0": "q"}
+    return dict(T=T, bsizes=bsizes, sr=srname, time_dep=time_dep, mode=mode, inputs=inputs, data=data, rename=rename)
+
+
+def run_markov(sum_op, prod_op, trans, time, step, mode, rename):
+    try:
+        if mode == "eager":
+            r = MarkovProduct(sum_op, prod_op, trans, time, step)
+            if rename:
+                r = r(**rename)
+            return ("value", r, None)
+        with (lazy if mode == "lazy" else reflect):
+            m = MarkovProduct(sum_op, prod_op, trans, time, step)
+            if rename:
+                m = m(**rename)
+        return ("value", reinterpret(m), m)
+    except (AssertionError, NotImplementedError, ValueError, KeyError, AttributeError) as e:
+        return ("declined", type(e).__name__, None)
+
+
+def check_empty_step(ctx, c, use_driver=True):
+    sum_op, prod_op, wire, kind = SEMIRINGS[c["sr"]]
+    tol = 1e-9 if kind == "log" else 0.0
+    trans = Tensor(c["data"], OrderedDict((n, Bint[s]) for n, s in c["inputs"])) if c["inputs"] \
+        else Tensor(c["data"])
+    time = Variable("time", Bint[c["T"]])
+    status, r, _ = run_markov(sum_op, prod_op, trans, time, {}, c["mode"], c["rename"])
+    branch = "reduce" if c["time_dep"] else ("times-T" if prod_op is ops.add else "pow-T")
+    ctx.count(f"eager-empty:{branch}:{c['mode']}")
+    ctx.count(f"eager-empty:sr={c['sr']}")
+    wit = {k: (v.tolist() if isinstance(v, np.ndarray) else v) for k, v in c.items()}
+    # per batch point: the T scalars (as 1x1 matrices)
+    names = [n for n, _ in c["inputs"]]
+    data = lin_exact(c["data"], kind)
+    bnames = [f"b{i}" for i in range(len(c["bsizes"]))]
+    bpoints = list(itertools.product(*[range(s) for s in c["bsizes"]]))
+    seqs = {}
+    for b in bpoints:
+        vals = []
+        for t in range(c["T"]):
+            idx = tuple(t if n == "time" else b[bnames.index(n)] for n in names)
+            vals.append(exact(data[idx]))
+        seqs[b] = vals
+    kindname = "mul" if wire.endswith("mul") else "add"    # the product of the *wire* semiring
+    expected = {}
+    if use_driver:
+        reqs = []
+        for b in bpoints:
+            mats = [[[v]] for v in seqs[b]]
+            tr = f"(seq {sx(mats)})" if c["time_dep"] else f"(const {sx(mats[0])})"
+            reqs.append(f"C10 eager {wire} {kindname} false {c['T']} {tr}")
+            reqs.append(f"C10 fold {wire} {sx(mats)}")
+        ans = ctx.driver.ask(reqs)
+        for i, b in enumerate(bpoints):
+            mk, mv = parse_mat(ans[2 * i])
+            fk, fv = parse_mat(ans[2 * i + 1])
+            if mk != "value" or fk != "value":
+                ctx.infra_errors.append(f"driver answered {ans[2*i]} / {ans[2*i+1]} for {reqs[2*i][:200]}")
+                return
+            if not mats_equal(mv, fv, 0):
+                ctx.infra_errors.append(f"Lean eager model disagrees with the fold on {reqs[2*i][:300]}")
+                return
+            expected[b] = fv[0][0]
+    else:
+        for b in bpoints:
+            expected[b] = py_fold(c["sr"], [[[v]] for v in seqs[b]])[0][0]
+    if status == "declined":
+        ctx.count(f"eager-empty:declined-{r}")
+        if c["time_dep"] and use_driver:
+            ctx.fail("correspondence", "C10.eager-empty-decline-mismatch", witness=wit,
+                     expected="a value (trans.reduce(prod_op, time))", got=f"declined: {r}")
+        # time-independent: the pinned tree raises AttributeError (`time.size` on a Variable) — a decline
+        ctx.case(nontrivial_key=None)
+        return
+    order = [(("q" if (n == "b0" and c["rename"]) else n), s) for n, s in zip(bnames, c["bsizes"])]
+    try:
+        tab = table(r, order)
+    except (KeyError, ValueError) as e:
+        ctx.fail("input", "C10.eager-empty-inputs", witness=wit, got=str(e), expected=str(order))
+        return
+    if tab is None:
+        ctx.count("eager-empty:lazy")
+        ctx.case(nontrivial_key=None)
+        return
+    tab = futil.linear_view(tab, kind)
+    for b in bpoints:
+        if not same_num(exact(tab[b]), expected[b], tol):
+            ctx.fail("input", "C10.eager-empty-ne-fold", witness=wit, expected=str(expected[b]),
+                     got=str(exact(tab[b])),
+                     python=PY_TEMPLATE.format(algo=f"MarkovProduct(step={{}}) [{c['mode']}]", inputs=c["inputs"],
+                                               data=c["data"].tolist(),
+                                               inputs_dom=[(n, f"Bint[{s}]") for n, s in c["inputs"]]))
+            return
+    ctx.case(sample=dict(kind="eager-empty", T=c["T"], sr=c["sr"], time_dep=c["time_dep"], mode=c["mode"]),
+             nontrivial_key=("eager-empty", c["T"], c["sr"], c["mode"], tuple(c["inputs"]), c["data"].tobytes())
+             if c["T"] >= 2 else None)
+
+
+def check_rename(ctx, c, use_driver=True):
+    """MarkovProduct(...)(**renaming): eager_subs with step_names, eager and lazy+reinterpret."""
+    rng = ctx.rng
+    sum_op, prod_op, wire, kind = SEMIRINGS[c["sr"]]
+    tol = 1e-9 if kind == "log" else 0.0
+    names = c["names"]
+    npairs = len(names["prev"])
+    rename = {}
+    style = rng.choice(["fresh", "fresh", "swap", "mixed"])
+    for i in range(npairs):
+        if style == "swap" or (style == "mixed" and rng.random() < 0.5):
+            rename[names["prev"][i]] = names["curr"][i]
+            rename[names["curr"][i]] = names["prev"][i]
+        else:
+            if rng.random() < 0.8:
+                rename[names["prev"][i]] = f"rp{i}"
+            if rng.random() < 0.8:
+                rename[names["curr"][i]] = f"rc{i}"
+    for i, n in enumerate(names["batch"]):
+        if rng.random() < 0.4:
+            rename[n] = f"rb{i}"
+    mode = rng.choice(["eager", "lazy", "reflect"])
+    trans = Tensor(c["data"], OrderedDict((n, Bint[s]) for n, s in c["inputs"]))
+    time = Variable("time", Bint[c["T"]])
+    step = dict(zip(names["prev"], names["curr"]))
+    status, r, lazy_term = run_markov(sum_op, prod_op, trans, time, step, mode, rename)
+    ctx.count(f"rename:{mode}:{style}")
+    wit = describe(c)
+    wit["rename"] = rename
+    wit["mode"] = mode
+    if status == "declined":
+        ctx.count(f"rename:declined-{r}")
+        ctx.case(nontrivial_key=None)
+        return
+    c2 = dict(c)
+    c2["names"] = {"time": "time", "prev": [rename.get(n, n) for n in names["prev"]],
+                   "curr": [rename.get(n, n) for n in names["curr"]],
+                   "batch": [rename.get(n, n) for n in names["batch"]]}
+    # name-level model of __init__ / eager_subs on the lazy term
+    if use_driver and lazy_term is not None and type(lazy_term).__name__ == "MarkovProduct":
+        ins = [n for n, _ in c["inputs"]]
+        sn = [[Q(k), Q(k)] for pair in step.items() for k in pair]
+        rn = [[Q(k), Q(v)] for k, v in rename.items() if k in names["prev"] + names["curr"]]
+        a = ctx.driver.ask([f"C10 mpinputs {sx(Q('time'))} {sx([Q(n) for n in ins])} {sx(sn)} {sx(rn)}"])[0]
+        model_names = [rename.get(str(n), str(n)) if str(n) in names["batch"] else str(n) for n in parse_sx(a[3:])] \
+            if a.startswith("ok (") else None
+        if model_names is None:
+            ctx.infra_errors.append(f"driver answered {a[:200]} for mpinputs")
+            return
+        if sorted(model_names) != sorted(lazy_term.inputs):
+            ctx.fail("correspondence", "C10.markov-subs-names", witness=wit, expected=str(model_names),
+                     got=str(list(lazy_term.inputs)))
+            return
+        ctx.count("rename:names-checked")
+    try:
+        impl = impl_matrices(c2, r)
+    except (KeyError, ValueError) as e:
+        ctx.fail("input", "C10.rename-inputs", witness=wit, got=str(e),
+                 expected="result inputs = renamed batch + prev + curr names")
+        return
+    if impl is None:
+        ctx.count("rename:lazy")
+        ctx.case(nontrivial_key=None)
+        return
+    bpoints = list(itertools.product(*[range(s) for s in c["bsizes"]]))
+    reqs = []
+    allm = {}
+    for b in bpoints:
+        allm[b] = step_matrices(c, b)
+        reqs.append(f"C10 fold {wire} {sx(allm[b])}")
+    answers = ctx.driver.ask(reqs) if use_driver else None
+    for i, b in enumerate(bpoints):
+        if use_driver:
+            fk, fv = parse_mat(answers[i])
+            if fk != "value":
+                ctx.infra_errors.append(f"driver answered {answers[i][:200]}")
+                return
+        else:
+            fv = py_fold(c["sr"], allm[b])
+        if not mats_equal(impl[b], fv, tol):
+            ctx.fail("input", "C10.markov-rename-ne-fold", witness=wit, expected=str(fv), got=str(impl[b]),
+                     python=PY_TEMPLATE.format(algo=f"MarkovProduct(...)(**{rename}) [{mode}]", inputs=c["inputs"],
+                                               data=c["data"].tolist(),
+                                               inputs_dom=[(n, f"Bint[{s}]") for n, s in c["inputs"]]))
+            return
+    ctx.case(sample=dict(kind="rename", T=c["T"], sr=c["sr"], mode=mode, rename=rename),
+             nontrivial_key=("rename", c["T"], c["sr"], mode, tuple(sorted(rename.items())), tuple(c["inputs"]),
+                             c["data"].tobytes()) if c["T"] >= 2 else None)
+
+
+def gen_rename_case(rng, tier):
+    while True:
+        c = gen_case(rng, tier)
+        if c["time_dep"]:
+            c["algo"] = "markov-eager"
+            c["k"] = None
+            return c
 
 
 def exhaustive_small(ctx):
@@ -378,15 +902,34 @@ def correspond(ctx):
     ctx.rule = ("random transitions: duration 1..12 (thorough 1..24), 1-3 state pairs (joint size <= 9), 0-2 batch "
                 "inputs, time/batch (in)dependence, shuffled input order, 5 semirings, algorithms seq/naive/mixed(k)/"
                 "MarkovProduct eager+lazy; plus every duration x every num_segments exhaustively for a 2-state chain; "
-                "plus sarkka_bilmes vs naive over lag sets in {1,2,3}.  Non-trivial = duration >= 3, joint state "
+                "plus sarkka_bilmes and naive_sarkka_bilmes vs the Lean window-chain fold: every lag set over {1,2,3} x "
+                "durations 1..2*period+1 x num_periods 1..2 exhaustively for one 2-state variable, and random cases with "
+                "1-2 variables (own lag sets, possibly none), sizes 1-3, optional global input, num_periods 1..3, "
+                "5 semirings; _get_shift/_shift_name vs the Lean string functions; MarkovProduct with empty step "
+                "(time-dependent and not, eager/lazy/reflect+reinterpret) and MarkovProduct(...)(**renaming) "
+                "(fresh names, prev/curr swaps, batch renames).  Non-trivial = duration >= 3, joint state "
                 "size >= 2 and the implementation returned a value; distinct by full case content.")
     exhaustive_small(ctx)
     n = 400 if ctx.tier == "quick" else 6000
     for _ in range(n):
         c = gen_case(ctx.rng, ctx.tier)
         check_case(ctx, c)
-    sarkka_cases(ctx, 150 if ctx.tier == "quick" else 2000)
-    ctx.assumptions.append("sarkka_bilmes_product is tied to naive_sarkka_bilmes_product by correspondence only (no theorem)")
+    quick = ctx.tier == "quick"
+    name_arith_cases(ctx)
+    sarkka_exhaustive(ctx)
+    for _ in range(120 if quick else 2000):
+        check_sarkka(ctx, gen_sarkka(ctx.rng, ctx.tier))
+    for _ in range(150 if quick else 2000):
+        check_empty_step(ctx, gen_empty_step(ctx.rng, ctx.tier))
+    for _ in range(120 if quick else 2000):
+        check_rename(ctx, gen_rename_case(ctx.rng, ctx.tier))
+    ctx.assumptions.append("sarkka_bilmes_product: the theorem sarkka_eq_naive is about the chain of window transition "
+                           "matrices (block structure, slices, remainder recursion, mixed scan); that the pointwise "
+                           "product of the shifted factors of a block IS the product of its window matrices rests on "
+                           "the name-arithmetic lemmas plus correspondence (funsor vs Lean windowMat/sarkka/fold)")
+    ctx.assumptions.append("eager_markov_product with empty step and a time-independent transition raises "
+                           "AttributeError on the pinned tree (time.size): a decline; the closed forms trans*T / "
+                           "trans**T are modelled and proved but exercised only if that line is repaired")
     ctx.assumptions.append("float64 arithmetic on small integers / dyadic rationals is exact; the log semiring is compared in linear space with rtol 1e-9")
 
 
@@ -397,5 +940,14 @@ def search(ctx, broken):
     for _ in range(n):
         c = gen_case(ctx.rng, ctx.tier)
         check_case(ctx, c, use_driver=False)
+        if len([f for f in ctx.failures if f.witness is not None]) > before:
+            return
+    for _ in range(1200):
+        check_sarkka(ctx, gen_sarkka(ctx.rng, ctx.tier), use_driver=False)
+        if len([f for f in ctx.failures if f.witness is not None]) > before:
+            return
+    for _ in range(1500):
+        check_empty_step(ctx, gen_empty_step(ctx.rng, ctx.tier), use_driver=False)
+        check_rename(ctx, gen_rename_case(ctx.rng, ctx.tier), use_driver=False)
         if len([f for f in ctx.failures if f.witness is not None]) > before:
             return
